@@ -409,6 +409,48 @@ func (g *pgen) block(depth int) []sx.Stmt {
 	return out
 }
 
+// one block, attribute globs only: the fragment of the operational model GlobSem
+func (g *pgen) flatBlock() []sx.Stmt {
+	var out []sx.Stmt
+	var have []string
+	attr := func(prefix string) sx.Stmt {
+		switch g.r.Intn(3) {
+		case 0:
+			return sx.F(sx.U(prefix, "shape"), sx.VS(lit(g.pick(shapes))))
+		case 1:
+			return sx.F(sx.U(prefix, "style", "fill"), sx.VS(lit(g.pick(colours))))
+		default:
+			return sx.F(sx.U(prefix), sx.VS(lit("L"+fmt.Sprint(g.r.Intn(9)))))
+		}
+	}
+	n := 4 + g.r.Intn(8)
+	for i := 0; i < n; i++ {
+		switch g.r.Intn(8) {
+		case 0, 1:
+			nm := g.pick(namePool)
+			have = append(have, nm)
+			out = append(out, sx.F(sx.U(nm), sx.Val{}))
+		case 2:
+			nm := g.pick(namePool)
+			have = append(have, nm)
+			out = append(out, attr(nm))
+		case 3, 4, 5:
+			out = append(out, attr(g.pick(fieldPats)))
+			g.c.Count("flat:glob")
+		case 6:
+			if len(have) > 0 {
+				out = append(out, attr(g.pick(have)))
+			}
+		default:
+			if len(have) > 0 && g.r.Intn(4) == 0 {
+				out = append(out, sx.F(sx.U(g.pick(have)), sx.VNull()))
+				g.c.Count("flat:null")
+			}
+		}
+	}
+	return out
+}
+
 func observeProg(l *sx.Lean, in map[string]any) (map[string]any, error) {
 	ans, err := l.Ask(in)
 	if err != nil {
@@ -496,6 +538,10 @@ func run(c *hl.Ctx) error {
 	np := c.Pick(1500, 100000)
 	for i := 0; i < np; i++ {
 		body := pg.block(0)
+		if r.Intn(4) == 0 {
+			body = pg.flatBlock()
+			c.Count("fragment:one-block-attribute-globs")
+		}
 		res, err := observeProg(l, map[string]any{"body": sx.Body(body)})
 		if err != nil {
 			return err
